@@ -41,10 +41,10 @@ const nsStreamErr = "urn:ietf:params:xml:ns:xmpp-streams"
 
 // Prog is the behaviour of the handler in one invocation.
 type Prog struct {
-	Read  string `json:"read"` // none | k | all | past-eof | swallow
+	Read  string `json:"read"` // none | k | all | past-eof | swallow | inner-first (the first child, as through xmlstream.Inner)
 	K     int    `json:"k,omitempty"`
 	Write string `json:"write"` // none | element | split | partial | refused-end | refused-comment | refused-nameless | echo
-	Ret   string `json:"ret"`   // nil | read-err | custom | write-err
+	Ret   string `json:"ret"`   // nil | read-err | custom | write-err | eof (io.EOF whatever was read)
 }
 
 // Scenario is a complete case.
@@ -348,6 +348,21 @@ func genProg(r *rand.Rand) Prog {
 		p.Ret = "read-err"
 	default:
 		p.Ret = "custom"
+	}
+	if r.Intn(10) == 0 {
+		// the handler returns a bare io.EOF after reading none / the first child /
+		// some tokens / everything
+		p.Ret = "eof"
+		switch r.Intn(5) {
+		case 0:
+			p.Read = "none"
+		case 1, 2:
+			p.Read = "inner-first"
+		case 3:
+			p.Read, p.K = "k", 1+r.Intn(4)
+		default:
+			p.Read = "all"
+		}
 	}
 	if r.Intn(80) == 0 {
 		// a write that xml.Encoder refuses; the program swallows or returns the error
@@ -728,6 +743,26 @@ func (rc *recorder) HandleXMPP(rw xmlstream.TokenReadEncoder, start *xml.StartEl
 		for j := 0; j < p.K; j++ {
 			read()
 		}
+	case "inner-first":
+		// the first child element, the way xmlstream.Inner(rw) after its start
+		// tag delivers it: up to and including its end tag
+		depth := 0
+		for j := 0; j < 100000; j++ {
+			if read() != nil {
+				break
+			}
+			switch inv.Reads[len(inv.Reads)-1].Tok.(type) {
+			case xml.StartElement:
+				depth++
+			case xml.EndElement:
+				depth--
+			}
+			if depth <= 0 {
+				if _, isText := inv.Reads[len(inv.Reads)-1].Tok.(xml.CharData); !isText {
+					break
+				}
+			}
+		}
 	case "swallow":
 		swallowed := 0
 		for j := 0; j < 100000; j++ {
@@ -789,6 +824,8 @@ func (rc *recorder) HandleXMPP(rw xmlstream.TokenReadEncoder, start *xml.StartEl
 		inv.Ret = last
 	case "custom":
 		inv.Ret = errCustom
+	case "eof":
+		inv.Ret = io.EOF
 	}
 	return inv.Ret
 }
@@ -1029,6 +1066,13 @@ func Run(c *core.Case, sc Scenario) {
 	}
 
 	for i, inv := range rec.invs {
+		if inv.Ret == io.EOF && i+1 < len(rec.invs) {
+			// the session took the handler's io.EOF for "done with this element"
+			// and carried on: everything that follows is judged as usual (the next
+			// invocation must begin at the next top-level element)
+			c.Count("session_carried_on_after_handler_eof", 1)
+			continue
+		}
 		if inv.Ret != nil {
 			stopped, stopErr = i, inv.Ret
 			break
@@ -1090,6 +1134,18 @@ func Run(c *core.Case, sc Scenario) {
 				if a.Name.Space == "" && a.Name.Local == "from" && a.Value == oldOwn {
 					c.Count("former_bare_from_after_addr_change", 1)
 				}
+			}
+		}
+		if prog.Ret == "eof" {
+			c.Count("handler_returned_bare_eof", 1)
+			eofSeen := false
+			for _, rd := range inv.Reads {
+				if rd.Err == io.EOF {
+					eofSeen = true
+				}
+			}
+			if !eofSeen && len(e.Tokens) > 1 && i+1 < expected {
+				c.Count("bare_eof_with_element_partly_unread", 1)
 			}
 		}
 		if inv.Refused {
@@ -1347,7 +1403,7 @@ func Prop() *core.Prop {
 	return &core.Prop{
 		ID:    "C08",
 		Level: core.Exploration,
-		Rule:  "a case is one pre-loaded input stream: 0-4 PRNG element trees (stanzas and others, depth <= 4, stanza-named children, text/CDATA/entities; every start tag and text run carries the index of its top-level element), white-space keep-alives, one terminator out of {closing tag, stream error, restart, other stream-namespace element, comment, PI, directive, non-white text, malformed XML, bare EOF} at the top level or nested in an element, an optional trailer, then EOF; client and server namespaces, initiated and received sessions, PRNG read chunking. Serve runs single-threaded with recording handler programs (read none / k tokens / all / past EOF / swallow read errors; write nothing / an element / split / unclosed / a token the encoder refuses (end tag without start, comment containing the comment terminator, nameless start tag, xmlstream.Copy(rw, rw) without the start); return nil / the error read / an own error / the write error). Serve runs on its own goroutine; when it does not return the quiescent-stall rule decides. On one session in 8 the application calls Session.Close (before Serve, synchronously at the start of a PRNG-chosen invocation, or on its own goroutine) while the peer keeps sending: the per-element rule and the outcome rule are unchanged. 15% of the sessions have their local address changed first (UpdateAddr during negotiation, UpdateAddr on the Ready session, a real BindResource negotiation with a server-assigned address); the from rule is judged against the address LocalAddr reports when the stanzas arrive, with stanzas from the former and the new bare and full addresses. The reference is an independent encoding/xml pass over the same bytes. Distinct = distinct (terminator, namespace, program, element class, outcome).",
+		Rule:  "a case is one pre-loaded input stream: 0-4 PRNG element trees (stanzas and others, depth <= 4, stanza-named children, text/CDATA/entities; every start tag and text run carries the index of its top-level element), white-space keep-alives, one terminator out of {closing tag, stream error, restart, other stream-namespace element, comment, PI, directive, non-white text, malformed XML, bare EOF} at the top level or nested in an element, an optional trailer, then EOF; client and server namespaces, initiated and received sessions, PRNG read chunking. Serve runs single-threaded with recording handler programs (read none / k tokens / all / past EOF / swallow read errors; write nothing / an element / split / unclosed / a token the encoder refuses (end tag without start, comment containing the comment terminator, nameless start tag, xmlstream.Copy(rw, rw) without the start); return nil / the error read / an own error / the write error / a bare io.EOF after reading none, the first child, some tokens or everything). Serve runs on its own goroutine; when it does not return the quiescent-stall rule decides. On one session in 8 the application calls Session.Close (before Serve, synchronously at the start of a PRNG-chosen invocation, or on its own goroutine) while the peer keeps sending: the per-element rule and the outcome rule are unchanged. 15% of the sessions have their local address changed first (UpdateAddr during negotiation, UpdateAddr on the Ready session, a real BindResource negotiation with a server-assigned address); the from rule is judged against the address LocalAddr reports when the stanzas arrive, with stanzas from the former and the new bare and full addresses. The reference is an independent encoding/xml pass over the same bytes. Distinct = distinct (terminator, namespace, program, element class, outcome).",
 		Assumptions: []string{
 			"whether the end tag is delivered to the handler, the outcome for a bare EOF and the exact error values are not demanded",
 			"a comment, PI, directive or stream-namespace element nested in an element is a stream-level construct in the sense of the statement (quantifier: at any nesting depth): it must not be delivered as a token and Serve must end with an error",
@@ -1364,6 +1420,7 @@ func Prop() *core.Prop {
 			"invocations", "stanzas_dispatched", "non_stanzas_dispatched", "from_blanked_expected", "non_stanza_with_own_from",
 			"elements_read_to_eof", "elements_partly_read", "elements_not_read", "reads_after_eof", "reads_after_error",
 			"nested_construct_surfaced_as_read_error", "chunked_streams",
+			"handler_returned_bare_eof", "bare_eof_with_element_partly_unread", "session_carried_on_after_handler_eof",
 			"app_close_before", "app_close_in-handler", "app_close_goroutine", "invocations_after_app_close",
 			"unfinished_element_with_write_after_app_close", "outcome_closing_tag_after_app_close",
 			"addr_update_neg", "addr_update_ready", "addr_bind", "bare_address_changed_before_serve",
